@@ -9,7 +9,7 @@ ID = "C15"
 LEAN_MODULES = ["CatiiProps.C15"]
 RULE = ("(a) the histories of C06: after every library-chosen normalisation (shift_common(), append, filtered, collapsed, "
         "from_array without a common - with and without a value mapping (injective / many-to-one) and supplied counts) count(common) == max count, ties either way; (b) pairs of indexes reached by "
-        "different histories: direct twin (must be ==), re-encoded twin with another common, one-cell difference, other "
+        "different histories: direct twin (must be ==), re-encoded twin with another common, one-cell difference, near misses with the same key set and row-id total (one cell moved to another listed value, two cells swapped), other "
         "shape (must be !=), a != b is not (a == b) and never raises, reflexive/symmetric/transitive, non-index -> False. "
         "Non-trivial = at least one entry; distinct by the pair")
 ASSUMPTIONS = []
@@ -51,6 +51,23 @@ def eq_checks(ctx, ix, a, reqs, pend):
         pos = tuple(ctx.rng.randrange(s) for s in a.shape)
         b[pos] = b[pos] + 1
         cmp(ix, G.make_index(b, int(ix.common)), False, "one cell differs")
+    # near misses: same shape, common value, key set (and even entry lengths), different content
+    flat = a.reshape(-1)
+    listed = [int(v) for v in sorted(set(flat.tolist())) if v != int(ix.common)]
+    if len(listed) >= 2:
+        v1, v2 = ctx.rng.sample(listed, 2)
+        p1 = [i for i, v in enumerate(flat.tolist()) if v == v1]
+        p2 = [i for i, v in enumerate(flat.tolist()) if v == v2]
+        if len(p1) >= 2:                 # one cell moves from v1 to v2: same keys, same total of row ids
+            for pos in sorted(set([p1[0], p1[-1], ctx.rng.choice(p1)])):
+                b = flat.copy(); b[pos] = v2
+                cmp(ix, G.make_index(b.reshape(a.shape), int(ix.common)), False, "one cell moved to another listed value")
+        b = flat.copy()                  # two cells swap their values: every entry keeps its length
+        i1, i2 = ctx.rng.choice(p1), ctx.rng.choice(p2)
+        b[i1], b[i2] = v2, v1
+        if a.ndim == 1 or i1 % a.shape[1] == i2 % a.shape[1]:
+            cmp(ix, G.make_index(b.reshape(a.shape), int(ix.common)), False, "two cells swapped")
+        ctx.hit("near_miss_twins")
     if a.ndim == 1:
         cmp(ix, G.make_index(np.concatenate([a, [int(ix.common)]]), int(ix.common)), False, "one more (common) row")
     for other in (5, None, "x", {(1,): [0]}, [1, 2]):
